@@ -867,8 +867,11 @@ val run_g : bytes -> bytes * bytes
 
 val ounwrap : n option -> n
 
+val dump_compact : row -> bytes
+
 val run_m_go :
-  opts -> bool -> row option -> bytes list -> bytes list -> bool * bytes list
+  opts -> bool -> bool -> row option -> bytes list -> bytes list ->
+  bool * bytes list
 
 val run_m : opts -> bytes -> bytes * bytes
 
